@@ -26,6 +26,9 @@ func errRules() []*Rule {
 		{ID: "DONE-2", Props: []string{"C17"}, Min: 5,
 			Doc: "adapters return the user callback's answer as their done result",
 			Run: runDone2},
+		{ID: "DONE-2b", Props: []string{"C17", "C03", "C02", "C01"}, Min: 4,
+			Doc: "adapters around a result-less user callback (RowCB) answer `go on` after every row: a scan is never cut short on behalf of a caller who cannot ask for it",
+			Run: runDone2b},
 		{ID: "DONE-3", Props: []string{"C17"}, Min: 3,
 			Doc: "top-level scans return exactly the iteration's error (an early stop is not an error)",
 			Run: runDone3},
@@ -743,6 +746,57 @@ func runDone2(c *Ctx) {
 			}
 			c.Check(bad == "", key, call.Pos(), "the user callback's done answer %s", orStr(bad, "is returned as this adapter's done result on every path"))
 		}
+	}
+}
+
+// runDone2b: the adapters around a user callback that has no result (RowCB: the caller cannot ask to stop): after
+// handing a row to it the adapter answers "go on" on every path — `return true` there would end an equality or range
+// scan after its first row.
+func runDone2b(c *Ctx) {
+	p := c.P
+	n := 0
+	for _, fn := range p.ModFuncs() {
+		if p.PkgShort(fn) != "." || !p.Reachable(fn) {
+			continue
+		}
+		res := fn.Signature.Results()
+		if res.Len() == 0 {
+			continue
+		}
+		if b, ok := res.At(0).Type().Underlying().(*types.Basic); !ok || b.Kind() != types.Bool {
+			continue
+		}
+		count := 0
+		for _, cs := range callsIn(fn) {
+			call, ok := cs.(*ssa.Call)
+			if !ok || call.Call.IsInvoke() || !isModFuncType(call.Call.Value.Type(), ".", "RowCB") {
+				continue
+			}
+			count++
+			n++
+			key := fmt.Sprintf("%s row-callback#%d", p.FnKey(fn), count)
+			bad := ""
+			pv := &pathVisitor{
+				OnExit: func(ret *ssa.Return, ps *pathState) {
+					if ret == nil || bad != "" || len(ret.Results) == 0 {
+						return
+					}
+					if b, isC := constBool(ps.Resolve(ret.Results[0])); !isC || b {
+						bad = "returns " + ps.Resolve(ret.Results[0]).String() + " at " + p.Pos(ret.Pos())
+					}
+				},
+				OnBackEdge: func(from, to *ssa.BasicBlock, ps *pathState) {
+					if bad == "" {
+						bad = "loops on after the callback"
+					}
+				},
+			}
+			enumPaths(call.Block(), instrIndex(call)+1, pv)
+			c.Check(bad == "", key, call.Pos(), "after the row went to a callback that cannot ask to stop, the adapter answers `go on` (false) %s", orStr(bad, "on every path"))
+		}
+	}
+	if n == 0 {
+		c.Undecided("row-callback adapters", token.NoPos, "no adapter around a RowCB found")
 	}
 }
 
